@@ -35,6 +35,12 @@ CHECKS = {
  "C14": ("exploration", "policy-level reference model over exhaustively enumerated short histories; porcupine linearizability check of recorded concurrent histories; runtime deadlock detector; race detector",
          "All operation sequences up to length 4 (quick) / 5 (thorough) over a 24-operation alphabet on LRU/FIFO/Random x capacity 1..3 x StatsRecorder are executed with reader-style block recycling and compared with a policy-level model; concurrent histories of 2-4 goroutines are recorded at the client boundary and checked with porcupine against the same model (nondeterministic drop victims), and repeated under -race.",
          "Blocks are immutable in concurrent histories; a porcupine timeout is reported as not judged; Resize(0) not exercised.", "3 C14"),
+ "C05": ("exploration", "independent BAM encoder as byte-level output monitor; field-by-field round-trip monitor incl. reference identity and buffer-retention re-check; checkptr build",
+         "Generated headers and records covering the stated quantifier are written with the real bam.Writer; the gunzipped output is compared byte for byte with an encoder written from SAMv1 4.2 (bin field masked); the real bam.Reader must return equal records (identity of Ref/MateRef in the read header, aux byte for byte) under all Omit modes, wc/rd/levels, and a returned record is re-checked after the next Read.",
+         "Unrepresentable records are not generated; records are literals, not built by sam.NewRecord.", "3 C05"),
+ "C13": ("exploration", "reference-model monitor: known record offsets / flat data against chunk-bounded reads (SetChunk, Iterator, ChunkReader)",
+         "BAM streams are encoded and cut into BGZF members by the independent encoders so that records end on, just before, just after and across member ends; LastChunk of every record is checked against the known offsets and every span i..j (all pairs for small files) and random chunk lists in any order must replay exactly; ChunkReader is driven with arbitrary non-record-aligned chunk lists, both End forms, touching and empty chunks, all buffer sizes.",
+         "Chunk lists for ChunkReader are ordered and non-overlapping.", "3 C13"),
 }
 NOT_BUILT = "check not built yet in this session; see DESIGN.md section 3 for the planned monitor"
 
